@@ -125,7 +125,9 @@ def abstract_value(ip, cr, st, tix, name, depth=0, penv=None):
             fields = {}
             c2 = cr
             for f in a["variants"][0]["fields"]:
-                fields[f["name"]] = abstract_value(ip, c2, st, f["ty"], name + "." + f["name"], depth + 1, penv2)
+                # fields of tuple structs are addressed by position (see Interp.place_target)
+                fkey = int(f["name"]) if f["name"].isdigit() else f["name"]
+                fields[fkey] = abstract_value(ip, c2, st, f["ty"], name + "." + f["name"], depth + 1, penv2)
             ip.ctx.param_len = saved
             return vstruct(t["adt"], fields)
         return ("opaque", t["s"])
@@ -254,6 +256,8 @@ def ctr_ctx(cr, im):
     """context for one CtrFlavor impl: block size = CS * chunks."""
     c = base_ctx()
     at = {it["name"]: it for it in im["items"]}
+    if "Backend" not in at or "CtrNonce" not in at:
+        raise Undecided("flavour %s does not bind the associated types Backend and CtrNonce" % im.get("self"))
     nonce_ty = at["CtrNonce"]["ty"]
     backend_ty = cr.types[at["Backend"]["ty"]]
     w = int(backend_ty["name"][1:])
